@@ -2069,7 +2069,7 @@ template< size_t L>
 
    if (index < mLength)
    {
-      if (mLength + count <= L)
+      if (count <= L - mLength)
       {
          // aaaccccc\0, insert( 3, 4, 'b')
          // length = 8, L > 11
@@ -2078,7 +2078,7 @@ template< size_t L>
          // --> aaabbbbccccc\0
          std::memset( &mString[ index], ch, count);
          mLength += count;
-      } else if (index + count <= L)
+      } else if (count <= L - index)
       {
          // aaaccccc\0, insert( 3, 4, 'b')
          // length = 8, L = 10
@@ -2099,7 +2099,7 @@ template< size_t L>
    } else
    {
       // append at the end
-      if (mLength + count > L)
+      if (count > L - mLength)
          count = L - mLength;
 
       std::memset( &mString[ mLength], ch, count);
@@ -2118,7 +2118,7 @@ template< size_t L>
 
    if (index < mLength)
    {
-      if (mLength + count <= L)
+      if (count <= L - mLength)
       {
          // aaaccccc\0, insert( 3, "bbbb")
          // length = 8, L > 11
@@ -2128,7 +2128,7 @@ template< size_t L>
          // --> aaabbbbccccc\0
          std::memcpy( &mString[ index], str, count);
          mLength += count;
-      } else if (index + count <= L)
+      } else if (count <= L - index)
       {
          // aaaccccc\0, insert( 3, "bbbb")
          // length = 8, L = 10
@@ -2149,7 +2149,7 @@ template< size_t L>
    } else
    {
       // append at the end
-      if (mLength + count > L)
+      if (count > L - mLength)
          count = L - mLength;
 
       std::memcpy( &mString[ mLength], str, count);
